@@ -13,6 +13,12 @@
 //	        in a scripted order with content derived from the request, then stalls / closes / corrupts;
 //	        a second wave of calls is issued after the first has returned.
 //	race  : callers keep issuing reads while the peer closes abruptly; only durations and error kinds.
+//	serve : the real rpc.NewServer(conn, processor).Handle() over TCP loopback with a scripted
+//	        types.DataProcessor (data derived from offset, a token and the call index; scripted errors,
+//	        io.EOF with short counts, delays) and a raw client that writes the given frame bytes
+//	        sequentially (one reply awaited per frame), pipelined (everything in one write before any
+//	        reply exists) or in small chunks, optionally followed by bytes that are not a frame; the
+//	        reply frames are recorded in order (own parser, independent of rpc.Wire).
 //
 // Timeouts: rpc/client.go has opReadTimeout/opWriteTimeout settable through types.RPCReadTimeout /
 // types.RPCWriteTimeout + rpc.SetRPCTimeout() (used here); opSyncTimeout/opUnmapTimeout (30 s) and
@@ -20,6 +26,7 @@
 package main
 
 import (
+	"bytes"
 	"encoding/binary"
 	"encoding/hex"
 	"encoding/json"
@@ -82,6 +89,30 @@ type Case struct {
 	Workers int `json:"workers,omitempty"`
 	Each    int `json:"each,omitempty"`
 	After   int `json:"after,omitempty"`
+	// serve
+	Frames []string `json:"frames,omitempty"` // complete request frames, hex
+	Tail   string   `json:"tail,omitempty"`   // bytes after the last frame, hex
+	Mode   string   `json:"mode,omitempty"`   // seq pipe chunk
+	Chunk  int      `json:"chunk,omitempty"`
+	Token  int      `json:"token,omitempty"`
+	Proc   []PAct   `json:"proc,omitempty"` // one entry per processor call, in order
+}
+
+// PAct: what the scripted DataProcessor does on its k-th call.
+type PAct struct {
+	R     string `json:"r"`               // ok eof err
+	Count int    `json:"count,omitempty"` // returned with io.EOF
+	Text  string `json:"text,omitempty"`  // err.Error()
+	Fill  int    `json:"fill"`            // reads: bytes of the buffer that are written (-1 = all)
+	Delay int    `json:"delay,omitempty"` // ms
+}
+
+// PCall: a call the processor received.
+type PCall struct {
+	Op   string `json:"op"`
+	Off  int64  `json:"off"`
+	Len  int64  `json:"len"`
+	Data string `json:"data,omitempty"`
 }
 
 type Comp struct {
@@ -122,6 +153,12 @@ type Out struct {
 	Hung    []int    `json:"hung,omitempty"`
 	Closed  int      `json:"closed"`
 	PeerErr string   `json:"peer_err,omitempty"`
+	// serve
+	Replies []Msg   `json:"replies,omitempty"`
+	REnd    string  `json:"rend,omitempty"` // how the reply stream ended: eof short implausible
+	HRet    string  `json:"hret,omitempty"` // what Handle() returned: eof unexpected-eof badmagic hung | text
+	PCalls  []PCall `json:"pcalls,omitempty"`
+	Note    string  `json:"note,omitempty"`
 	// race
 	MaxMs   int64 `json:"max_ms,omitempty"`
 	Slow    int   `json:"slow,omitempty"` // calls that took more than 500 ms
@@ -667,6 +704,268 @@ collect:
 	return o
 }
 
+// ---------------------------------------------------------------- server cases
+
+// scripted types.DataProcessor
+type sproc struct {
+	mu    sync.Mutex
+	k     int
+	acts  []PAct
+	token int
+	calls []PCall
+	gate  chan struct{}
+}
+
+func spattern(off int64, token, k, n int) []byte {
+	d := make([]byte, n)
+	for i := range d {
+		d[i] = byte(uint64(off>>9)*31 + uint64(token)*17 + uint64(k)*13 + uint64(i)*7 + 1)
+	}
+	return d
+}
+
+// next registers the call and returns its index and its scripted behaviour
+func (p *sproc) next(op string, off, n int64, data []byte) (int, PAct) {
+	// pipelined cases: no reply is produced before the client has written everything
+	select {
+	case <-p.gate:
+	case <-time.After(500 * time.Millisecond):
+	}
+	p.mu.Lock()
+	k := p.k
+	p.k++
+	c := PCall{Op: op, Off: off, Len: n}
+	if data != nil {
+		c.Data = hex.EncodeToString(data)
+	}
+	p.calls = append(p.calls, c)
+	p.mu.Unlock()
+	a := PAct{R: "ok", Fill: -1}
+	if k < len(p.acts) {
+		a = p.acts[k]
+	}
+	if a.Delay > 0 {
+		time.Sleep(time.Duration(a.Delay) * time.Millisecond)
+	}
+	return k, a
+}
+
+func (a PAct) result(okCount int) (int, error) {
+	switch a.R {
+	case "eof":
+		return a.Count, io.EOF
+	case "err":
+		return 0, fmt.Errorf("%s", a.Text)
+	}
+	return okCount, nil
+}
+
+func (p *sproc) ReadAt(buf []byte, off int64) (int, error) {
+	k, a := p.next("read", off, int64(len(buf)), nil)
+	n := a.Fill
+	if n < 0 || n > len(buf) {
+		n = len(buf)
+	}
+	copy(buf, spattern(off, p.token, k, n))
+	return a.result(len(buf))
+}
+
+func (p *sproc) WriteAt(buf []byte, off int64) (int, error) {
+	_, a := p.next("write", off, int64(len(buf)), buf)
+	return a.result(len(buf))
+}
+
+func (p *sproc) Sync() (int, error) {
+	_, a := p.next("sync", 0, 0, nil)
+	return a.result(0)
+}
+
+func (p *sproc) Unmap(off, n int64) (int, error) {
+	_, a := p.next("unmap", off, n, nil)
+	return a.result(0)
+}
+
+func (p *sproc) PingResponse() error {
+	_, a := p.next("ping", 0, 0, nil)
+	_, err := a.result(0)
+	return err
+}
+
+func (p *sproc) Close() error { return nil }
+
+func runServe(c Case) Out {
+	o := Out{ID: c.ID, K: "serve"}
+	cconn, sconn, err := connect()
+	if err != nil {
+		o.Err = "connect: " + err.Error()
+		return o
+	}
+	defer cconn.Close()
+	defer sconn.Close()
+	proc := &sproc{acts: c.Proc, token: c.Token, gate: make(chan struct{})}
+	srv := rpc.NewServer(sconn, proc)
+	hret := make(chan error, 1)
+	go func() { hret <- srv.Handle() }()
+
+	// reader: the reply frames in the order in which they arrive
+	var mu sync.Mutex
+	var replies []Msg
+	got := make(chan struct{}, 1024)
+	rend := make(chan string, 1)
+	go func() {
+		for {
+			hdr := make([]byte, 30)
+			n, err := io.ReadFull(cconn, hdr)
+			if err != nil {
+				if n == 0 {
+					rend <- "eof"
+				} else {
+					rend <- "short"
+				}
+				return
+			}
+			l := binary.LittleEndian.Uint32(hdr[26:30])
+			if l > 1<<22 {
+				rend <- "implausible"
+				return
+			}
+			data := make([]byte, l)
+			if _, err := io.ReadFull(cconn, data); err != nil {
+				rend <- "short"
+				return
+			}
+			m := Msg{Magic: uint32(binary.LittleEndian.Uint16(hdr[0:2])), Seq: binary.LittleEndian.Uint32(hdr[2:6]),
+				Type: binary.LittleEndian.Uint32(hdr[6:10]), Off: int64(binary.LittleEndian.Uint64(hdr[10:18])),
+				Size: int64(binary.LittleEndian.Uint64(hdr[18:26])), Data: hex.EncodeToString(data)}
+			mu.Lock()
+			replies = append(replies, m)
+			mu.Unlock()
+			select {
+			case got <- struct{}{}:
+			default:
+			}
+		}
+	}()
+	count := func() int {
+		mu.Lock()
+		defer mu.Unlock()
+		return len(replies)
+	}
+
+	var frames [][]byte
+	total := 0
+	for _, f := range c.Frames {
+		b := unhex(f)
+		frames = append(frames, b)
+		total += len(b)
+	}
+	tail := unhex(c.Tail)
+	switch c.Mode {
+	case "seq":
+		close(proc.gate)
+		for i, f := range frames {
+			if _, err := cconn.Write(f); err != nil {
+				o.Note = fmt.Sprintf("write of frame %d: %v", i, err)
+				break
+			}
+			deadline := time.After(2 * time.Second)
+			for count() < i+1 {
+				select {
+				case <-got:
+				case <-time.After(10 * time.Millisecond):
+				case <-deadline:
+					o.Note = fmt.Sprintf("no reply to frame %d within 2 s", i)
+				}
+				if o.Note != "" {
+					break
+				}
+			}
+			if o.Note != "" {
+				break
+			}
+		}
+		if len(tail) > 0 {
+			cconn.Write(tail)
+		}
+	case "chunk":
+		close(proc.gate)
+		all := append(bytes.Join(frames, nil), tail...)
+		n := c.Chunk
+		if n <= 0 {
+			n = 7
+		}
+		for i := 0; i < len(all); i += n {
+			e := i + n
+			if e > len(all) {
+				e = len(all)
+			}
+			if _, err := cconn.Write(all[i:e]); err != nil {
+				o.Note = "chunk write: " + err.Error()
+				break
+			}
+			if (i/n)%5 == 4 {
+				time.Sleep(200 * time.Microsecond)
+			}
+		}
+	default: // pipe
+		all := append(bytes.Join(frames, nil), tail...)
+		if len(all) > 32<<10 {
+			close(proc.gate) // more than the socket buffers are sure to take: do not hold the server back
+			if _, err := cconn.Write(all); err != nil {
+				o.Note = "write: " + err.Error()
+			}
+		} else {
+			if _, err := cconn.Write(all); err != nil {
+				o.Note = "write: " + err.Error()
+			}
+			close(proc.gate)
+		}
+	}
+	if tc, ok := cconn.(*net.TCPConn); ok {
+		tc.CloseWrite()
+	}
+	delays := 0
+	for _, a := range c.Proc {
+		delays += a.Delay
+	}
+	select {
+	case err := <-hret:
+		switch {
+		case err == io.EOF:
+			o.HRet = "eof"
+		case err == io.ErrUnexpectedEOF:
+			o.HRet = "unexpected-eof"
+		case err != nil && strings.HasPrefix(err.Error(), "Wrong API version"):
+			o.HRet = "badmagic"
+		case err == nil:
+			o.HRet = "nil"
+		default:
+			o.HRet = err.Error()
+		}
+	case <-time.After(3*time.Second + time.Duration(delays)*time.Millisecond):
+		o.HRet = "hung"
+	}
+	// let the replies that are on their way arrive before the connection is torn down (closing a socket
+	// with unread request bytes resets it)
+	for t0 := time.Now(); count() < len(frames) && time.Since(t0) < 300*time.Millisecond; {
+		time.Sleep(2 * time.Millisecond)
+	}
+	// what replica/rpc/server.go does after Handle returned (server.Stop closes the connection)
+	sconn.Close()
+	select {
+	case o.REnd = <-rend:
+	case <-time.After(2 * time.Second):
+		o.REnd = "reader-timeout"
+	}
+	mu.Lock()
+	o.Replies = replies
+	mu.Unlock()
+	proc.mu.Lock()
+	o.PCalls = proc.calls
+	proc.mu.Unlock()
+	return o
+}
+
 func main() {
 	if len(os.Args) < 5 {
 		fmt.Fprintln(os.Stderr, "usage: rpc in.jsonl out.jsonl workdir rw-timeout-ms [parallel]")
@@ -715,7 +1014,7 @@ func main() {
 			put(runWrite(c))
 		case "read":
 			put(runRead(c))
-		case "loop", "race":
+		case "loop", "race", "serve":
 			wg.Add(1)
 			sem <- struct{}{}
 			go func(c Case) {
@@ -723,6 +1022,8 @@ func main() {
 				defer func() { <-sem }()
 				if c.K == "loop" {
 					put(runLoop(c))
+				} else if c.K == "serve" {
+					put(runServe(c))
 				} else {
 					put(runRace(c))
 				}
